@@ -293,6 +293,19 @@ def main(argv: typing.Sequence[str]) -> int:
             return int(mod.replay(ctx, doc.get("case", doc)) or 0)
         return int(mod.run(ctx))
     except HarnessError as e:
+        # A guard (vacuity, self-check) failed. If violations were already recorded they are reported first: a defect that also
+        # trips a guard must end as exit 1, never be hidden behind exit 2.
+        if len(ctx.bag) > 0 and not a.replay:
+            try:
+                rc = ctx.finish(
+                    "other",
+                    {"explanation": f"a harness guard failed ({e}) after violations had been recorded; the violations are reported, coverage figures of this run are unavailable"},
+                    [],
+                )
+                if rc == 1:
+                    return 1
+            except HarnessError:
+                pass
         print(f"HARNESS-ERROR property={pid}: {e}", file=sys.stderr)
         return 2
     except Exception:  # pylint: disable=broad-except
